@@ -8,6 +8,10 @@
     Element::insert_character_content_item, remove_character_content_item (element.rs)  Ok only for Mixed content and a position inside the
                                                                     content (removal: holding a character item, never a sub-element); exactly that item is
                                                                     inserted / removed, a refused call changes nothing
+    ElementRaw::move_element_here / move_element_here_at (elementraw.rs)  the position test of a move: no range, no move; a position outside the
+                                                                    range is refused and nothing changes; inside its own parent the element occupies one
+                                                                    place of the range (last position b - 1; an element already here stays where it is);
+                                                                    the three ways of carrying out the move (position / local / full) are leaves
     ElementRaw::move_element_position, Element::list_valid_sub_elements, ElementRaw::sort (unit sortnode)
 
 The element graph (Arc<RwLock<..>>, SmallVec, HashSet) is out of the verifier's reach, so the *node* is modelled by what these functions
@@ -58,7 +62,8 @@ Rules R39: `AutosarDataError::Variant { .. }` / `AutosarDataError::InvalidPositi
 the `ElementRaw { .. }.wrap()` literal -> leaf vx_new_element; `unreachable!(); // ...` kept.
 R55 (remove_sub_element): `Cow::from(self.path_unchecked()?)` -> opaque path; the child's write guard is dropped, its `elemname` is read through
 element_name(); `.iter().position(closure).ok_or(ERR)?` -> verified helper vx_position_of + early return; the recursive un-registration
-`remove_internal` is a leaf (hash maps, locks).  R56 (character items): `let mut element = self.0.write();` -> the node behind the write guard
+`remove_internal` is a leaf (hash maps, locks).  R57 (moves): `model == model_src` -> leaf vx_same_model; `move_element.parent()?.ok_or(ERR)?` -> match with early return; `src_parent.downgrade() == self_weak` ->
+leaf vx_is_behind.  R56 (character items): `let mut element = self.0.write();` -> the node behind the write guard
 is a `&mut ElementRaw` parameter of the unit's function; `CharacterData::String(chardata.to_owned())` -> leaf vx_string_value.
 """
 import copy
@@ -328,6 +333,32 @@ pub fn vx_mode_of(e: &ElementRaw) -> (r: ContentMode)
     requires e.elemtype.typ < n_dt(), wf_tables()
     ensures r == t_dt(e.elemtype.typ as int).mode
 { e.elemtype.content_mode() }
+// ---- moving an element into this node (the position test; the three ways of carrying out the move are leaves)
+pub uninterp spec fn parent_of(e: Element) -> Option<Element>;
+pub uninterp spec fn is_handle_of(w: WeakElement, e: Element) -> bool;        // `e.downgrade() == w`
+pub uninterp spec fn same_model(a: AutosarModel, b: AutosarModel) -> bool;    // `model == model_src` (Arc pointer equality)
+pub uninterp spec fn moved_local(before: ElementRaw, after: ElementRaw, e: Element, position: usize, r: Result<Element, AutosarDataError>) -> bool;
+pub uninterp spec fn moved_full(before: ElementRaw, after: ElementRaw, e: Element, position: usize, r: Result<Element, AutosarDataError>) -> bool;
+impl Element {
+    #[verifier::external_body]
+    pub fn parent(&self) -> (r: Result<Option<Element>, AutosarDataError>) ensures r matches Ok(p) ==> p == parent_of(*self) { unimplemented!() }
+    #[verifier::external_body]
+    pub fn vx_is_behind(&self, w: &WeakElement) -> (r: bool) ensures r == is_handle_of(*w, *self) { unimplemented!() }
+}
+#[verifier::external_body]
+pub fn vx_same_model(a: &AutosarModel, b: &AutosarModel) -> (r: bool) ensures r == same_model(*a, *b) { unimplemented!() }
+impl ElementRaw {
+    #[verifier::external_body]
+    pub fn move_element_local(&mut self, self_weak: WeakElement, move_element: &Element, position: usize, model: &AutosarModel, version: AutosarVersion) -> (r: Result<Element, AutosarDataError>)
+        requires position <= old(self).content@.len()
+        ensures moved_local(*old(self), *final(self), *move_element, position, r)
+    { unimplemented!() }
+    #[verifier::external_body]
+    pub fn move_element_full(&mut self, self_weak: WeakElement, move_element: &Element, position: usize, model: &AutosarModel, model_src: &AutosarModel, version: AutosarVersion) -> (r: Result<Element, AutosarDataError>)
+        requires position <= old(self).content@.len()
+        ensures moved_full(*old(self), *final(self), *move_element, position, r)
+    { unimplemented!() }
+}
 // ---- removing a child
 pub struct VxPath { pub opaque: u64 }
 impl ElementRaw {
@@ -505,6 +536,13 @@ R56 = [
     (r'if let ElementContent::CharacterData\(_\) = element\.content\[position\] \{', lambda m: 'if let ElementContent::CharacterData(_) = &element.content[position] {', 'R56'),
 ]
 SIG56 = [(r'\(&self, ', '(&self, element: &mut ElementRaw, ')]
+R57 = [
+    (r'AutosarDataError::\w+ \{[^{}]*\}', lambda m: 'AutosarDataError::VxOther(0)', 'R39'),
+    (r'AutosarDataError::InvalidPosition\b', lambda m: 'AutosarDataError::VxOther(0)', 'R39'),
+    (r'if model == model_src \{', lambda m: 'if vx_same_model(model, model_src) {', 'R57'),
+    (r'let src_parent = move_element\.parent\(\)\?\.ok_or\(AutosarDataError::VxOther\(0\)\)\?;', lambda m: 'let src_parent = match move_element.parent()? { Some(vx_p) => vx_p, None => { return Err(AutosarDataError::VxOther(0)); } };', 'R57'),
+    (r'if src_parent\.downgrade\(\) == self_weak \{', lambda m: 'if src_parent.vx_is_behind(&self_weak) {', 'R57'),
+]
 R50 = [
     (r'AutosarDataError::InvalidPosition\b', lambda m: 'AutosarDataError::VxOther(0)', 'R39'),
     (MOVEPOS, lambda m: 'let current_position = vx_position_of(&self.content, move_element).unwrap();', 'R50'),
@@ -526,6 +564,11 @@ V = 'version as u32'
 UNIQ = '''proof {
     assert forall|a: usize, b: usize| old(self).calc_post(%s, version as u32, Ok((a, b))) implies a == start_pos && b == end_pos by {
         lemma_calc_unique(&*old(self), %s, version as u32, a, b, start_pos, end_pos);
+    }
+}'''
+EXCL = '''proof {
+    if old(self).calc_post(move_element_name, version as u32, Err(AutosarDataError::VxOther(0))) && old(self).calc_post(move_element_name, version as u32, Ok((%s, %s))) {
+        lemma_calc_exclusive(&*old(self), move_element_name, version as u32, %s, %s, AutosarDataError::VxOther(0));
     }
 }'''
 LOOP_PROOF = r'''proof {
@@ -637,6 +680,22 @@ pub struct AutosarModel { pub opaque: u64 }
                            'final(self).elemname == old(self).elemname && final(self).elemtype == old(self).elemtype',
                            'match r { Ok(e) => exists|a: usize, b: usize| old(self).calc_post(name_of(*other), %s, Ok((a, b))) && a <= position <= b && final(self).content@ == old(self).content@.insert(position as int, ElementContent::Element(e)), Err(_) => final(self).content@ == old(self).content@ }' % V],
                   proofs=[dict(after=r'let \(start_pos, end_pos\) = self\.calc_element_insert_range\(other_elemname, version\)\?;', text=UNIQ % ('other_elemname', 'other_elemname'))]),
+           FnSpec('move_element_here_at', F, impl=IMPL_R, ret='r', body_sub=R57,
+                  requires=['old(self).elemtype.typ < n_dt()',
+                            # the handle that is its own parent's child (model consistency): when the element already stands in this node it is among the children
+                            '(parent_of(*move_element) matches Some(p) && is_handle_of(self_weak, p)) ==> exists|i: int| 0 <= i < old(self).content@.len() && #[trigger] old(self).content@[i] == ElementContent::Element(*move_element)'],
+                  ensures=[# a position outside the reported range is refused and nothing changes; no range, no move
+                           'forall|a: usize, b: usize| old(self).calc_post(name_of(*move_element), %s, Ok((a, b))) && !(a <= position <= b) ==> r is Err && *final(self) == *old(self)' % V,
+                           'old(self).calc_post(name_of(*move_element), %s, Err(AutosarDataError::VxOther(0))) ==> r is Err && *final(self) == *old(self)' % V,
+                           # inside its own parent the element itself occupies one place of the range: the last position is b - 1
+                           '(r is Ok && same_model(*model, *model_src) && (parent_of(*move_element) matches Some(p) && is_handle_of(self_weak, p))) ==> '
+                           'exists|a: usize, b: usize| old(self).calc_post(name_of(*move_element), %s, Ok((a, b))) && a <= position < b' % V],
+                  proofs=[dict(after=r'let \(start_pos, end_pos\) = self\.calc_element_insert_range\(move_element_name, version\)\?;', text=UNIQ % ('move_element_name', 'move_element_name') + '\n' + EXCL % ('start_pos', 'end_pos', 'start_pos', 'end_pos'))]),
+           FnSpec('move_element_here', F, impl=IMPL_R, ret='r', body_sub=R57, requires=['old(self).elemtype.typ < n_dt()'],
+                  ensures=['old(self).calc_post(name_of(*move_element), %s, Err(AutosarDataError::VxOther(0))) ==> r is Err && *final(self) == *old(self)' % V,
+                           # an element that already stands in this node stays where it is
+                           '(r is Ok && same_model(*model, *model_src) && (parent_of(*move_element) matches Some(p) && is_handle_of(self_weak, p))) ==> *final(self) == *old(self) && r == Ok::<Element, AutosarDataError>(*move_element)'],
+                  proofs=[dict(after=r'let \(_, end_pos\) = self\.calc_element_insert_range\(move_element_name, version\)\?;', text='let ghost vx_start: usize = choose|a: usize| old(self).calc_post(move_element_name, version as u32, Ok((a, end_pos)));\n' + EXCL % ('vx_start', 'end_pos', 'vx_start', 'end_pos'))]),
            FnSpec('remove_sub_element', F, impl=IMPL_R, ret='r', body_sub=R55, requires=['old(self).elemtype.typ < n_dt()'],
                   ensures=['final(self).elemname == old(self).elemname && final(self).elemtype == old(self).elemtype',
                            # a refused removal changes nothing; only a child of this element can be removed; the SHORT-NAME of an identifiable element cannot
